@@ -80,6 +80,7 @@ type hThread struct {
 	cancel  context.CancelFunc
 	expired bool
 	err     error
+	returned int32 // set by the goroutine itself the moment Serve returns (the status field is updated later, through the event loop)
 }
 
 type sched struct {
@@ -259,6 +260,7 @@ func runSchedule(c *Ctx, acts []hAct, predict func(prefix []hAct) string) (obs [
 					}()
 					err = s.srv.Serve(cn)
 				}()
+				atomic.StoreInt32(&t.returned, 1)
 				s.post(func() {
 					t.err = err
 					if err == radius.ErrServerShutdown {
@@ -328,7 +330,18 @@ func runSchedule(c *Ctx, acts []hAct, predict func(prefix []hAct) string) (obs [
 						t.status = 33
 						// statement: nil only after every Serve has returned and every handler finished
 						for i, o := range s.threads {
-							if (o.kind == 1 && (o.status == 11 || o.status == 12 || o.status == 18)) || (o.kind == 2 && o.status == 21) {
+							late := false
+							if o.kind == 1 && (o.status == 11 || o.status == 12 || o.status == 18) {
+								// Serve's deferred bookkeeping wakes Shutdown a few instructions before Serve itself returns, and this
+								// event may overtake Serve's own: what must hold is that the Serve call is returning without any further
+								// stimulus - give it a bounded grace period instead of trusting the (possibly stale) status
+								dl := time.Now().Add(2 * time.Second)
+								for atomic.LoadInt32(&o.returned) == 0 && time.Now().Before(dl) {
+									time.Sleep(time.Millisecond)
+								}
+								late = atomic.LoadInt32(&o.returned) == 0
+							}
+							if late || (o.kind == 2 && o.status == 21) {
 								c.Fail("spec", "Shutdown", "nil-early", fmt.Sprint(acts[:n+1]), fmt.Sprintf("Shutdown returned nil while thread %d has status %d", i, o.status), "drained", "Shutdown must return nil only after every Serve call has returned and every started handler has finished")
 							}
 						}
